@@ -54,9 +54,16 @@ RASTERIZE_EDGES (pixman_image_t  *image,
 	 * north-west.
 	 *
 	 * (The AA case does a similar  adjustment in RENDER_SAMPLES_X)
+	 *
+	 * Coordinates at or beyond the right end of the scanline are left
+	 * alone: they are clipped (rx) or produce an empty span (lx) anyway,
+	 * and adding to a value near the top of the 16.16 range would
+	 * overflow.
 	 */
-	lx += X_FRAC_FIRST(1) - pixman_fixed_e;
-	rx += X_FRAC_FIRST(1) - pixman_fixed_e;
+	if (lx < pixman_int_to_fixed (width))
+	    lx += X_FRAC_FIRST(1) - pixman_fixed_e;
+	if (rx < pixman_int_to_fixed (width))
+	    rx += X_FRAC_FIRST(1) - pixman_fixed_e;
 #endif
 	/* clip X */
 	if (lx < 0)
